@@ -224,10 +224,11 @@ class LinkerScripted(BoundedCheck):
 
 
 from contracts.c05_solve import LinkerSolveContract  # noqa: E402
+from contracts.c11_copy import InitOwnership  # noqa: E402
 
 PROPERTY = PropertySpec(
     id='C08',
-    contracts=list(LINKER_CONTRACTS) + [LinkerSolveContract(), SolverDefaults()],
+    contracts=list(LINKER_CONTRACTS) + [LinkerSolveContract(), SolverDefaults(), InitOwnership('linker')],
     bounded=[LinkerScripted()],
     level='other',
     explanation='BaseLinker.solve_t (with evaluate_t inlined from source) is executed symbolically for every linker shape of the catalogue '
